@@ -6,7 +6,7 @@ import Spok.Judge.Hash
 case lines (written by `vh-hash gen`, see harness/cmd/vh-hash/main.go):
 * `sha <hex>` — self-test of the executable SHA-256 against `crypto/sha256`; impl observation `SHA <hex digest>`;
 * `grp g=<GOMAXPROCS> c=<cpus|0> r=<repetitions> y=<seed> x=<0|1 race build> <variant>…` where a variant is
-  `<label>:<n>` followed by `n` entries `<kind>:<relative path hex>:<content hex>`; kinds `f d m l n v r s`
+  `<label>:<n>` followed by `n` entries `<kind>:<relative path hex>:<content hex>`; kinds `f d m l n v r s x` (`x`: cannot be opened, the process is out of descriptors — an error like `r`)
   (regular file, directory, missing, dangling symlink, parent is a regular file, vanishes while hashed, read fails);
   labels `base perm dirs content rename add remove diff other`, the first variant is the base.
   impl observation: `ROOT <hex of the temp dir> ; OUT <token per variant> ; LEAK <n per variant> ; RACE 0|1 ; CALLS n`,
@@ -43,7 +43,7 @@ structure Variant where
 def kindOf : String → Option Kind
   | "f" => some .file | "d" => some .dir | "m" => some .missing
   | "s" => some .file      -- a symbolic link to a regular file with that content: for the digest, the file itself
-  | "l" => some .dangling | "n" => some .notdir | "v" => some .vanish | "r" => some .readfail
+  | "l" => some .dangling | "n" => some .notdir | "v" => some .vanish | "r" => some .readfail | "x" => some .readfail
   | _ => none
 
 def parseEntry (tok : String) : Option EntryW :=
